@@ -549,8 +549,8 @@ func (e *Engine) verify(key string, c *Contract) *Unit {
 				if cur == ent || !strings.HasPrefix(sort, "(Array Int ") {
 					continue
 				}
-				if strings.HasPrefix(hn, "P$") || strings.HasPrefix(hn, "BX$") {
-					continue // boxed locals / interface boxes are private to the function
+				if strings.HasPrefix(hn, "P$") || strings.HasPrefix(hn, "BX$") || hn == "G$lastfv" {
+					continue // boxed locals / interface boxes are private to the function; lastfv() is bookkeeping of the engine
 				}
 				if ig := c.Flags["frame_ignore"]; ig != "" {
 					skip := false
@@ -648,7 +648,6 @@ func (e *Engine) verify(key string, c *Contract) *Unit {
 	return u
 }
 
-
 // splitGoal turns (=> A (and B C ...)) / (and B C ...) into separate goals.
 func splitGoal(t Term) []Term {
 	n := parseSx(t)
@@ -673,7 +672,6 @@ func splitGoal(t Term) []Term {
 	}
 	return []Term{t}
 }
-
 
 // callSiteUnit: one obligation per call site of function `key`: the enclosing function must be under a contract that
 // requires the ghost fact `need` (textually: "need(").
@@ -751,7 +749,6 @@ func (e *Engine) callSiteUnit(key, need string) *Unit {
 	return u
 }
 
-
 // prepareClosure registers the k-th function literal of the function `parent` as a verification unit of its own
 // under the key parent$k (ordinals as in `closure k` clauses: source order of all function literals in the body).
 func (e *Engine) prepareClosure(parent string, k int) (string, error) {
@@ -806,9 +803,23 @@ func (e *Engine) prepareClosure(parent string, k int) (string, error) {
 		}
 		return true
 	})
+	// the other variables of the enclosing function that are in scope at the literal are bound too (arbitrary values):
+	// a closure contract may name them even when the literal does not (any longer) use them
+	var extra []*ast.Ident
+	for id, o := range p.TypesInfo.Defs {
+		v, ok := o.(*types.Var)
+		if !ok || v.IsField() || seen[v] || id.Name == "_" {
+			continue
+		}
+		if v.Pos() >= fd.Pos() && v.Pos() < lit.Pos() && v.Parent() != nil && v.Parent().Contains(lit.Pos()) {
+			seen[v] = true
+			extra = append(extra, id)
+		}
+	}
+	sort.Slice(extra, func(i, j int) bool { return extra[i].Pos() < extra[j].Pos() })
+	e.captured[key] = append(e.captured[key], extra...)
 	return key, nil
 }
-
 
 // aliasPath: the import path some loaded file binds to the local name `name` (import aliases are file-scoped, so
 // types.Eval at package scope does not see them).
